@@ -336,7 +336,8 @@ def oracle_C02(rs, n, ctx):
         if max(early) > EARLY_MAX[kind]:
             R.violate(f"C02:{kind}-early", f"traveltime earlier than the exact first arrival by {max(early):.3f} cell-crossing times (bound {EARLY_MAX[kind]})", rep)
         # first-order bound: error below C cell-crossing times (C fixed from a calibration on the repaired tree)
-        C = {"halves": 1.5, "gradient": 1.0}[kind]   # worst cases seen on the unchanged tree: 0.67 and 0.78
+        C = {"halves": 1.5, "gradient": 2.0}[kind]   # worst cases seen on the unchanged tree: 0.67 and 1.44 (the gradient
+        # model is only sampled at cell centres, so its constant also contains the model discretisation)
         if errs[0] > C or errs[1] > C:
             R.violate(f"C02:{kind}-bound", f"error {errs} cell-crossing times exceeds first-order constant {C}", rep)
         # absolute error decreases under refinement: err2*(h/2) < err1*h  (allow the plateau of tiny errors)
